@@ -26,7 +26,9 @@ var c03Ops = []string{
 
 func c03Selections() []*refsem.E {
 	one := refsem.Lit(val.IntV(1))
-	sel := func(src *refsem.E, pred *refsem.E) *refsem.E { return refsem.Bin("pipe", src, refsem.Un("select", pred)) }
+	sel := func(src *refsem.E, pred *refsem.E) *refsem.E {
+		return refsem.Bin("pipe", src, refsem.Un("select", pred))
+	}
 	eq1 := refsem.Bin("eq", refsem.Leaf("self"), one)
 	return []*refsem.E{
 		refsem.Idx(0), refsem.Idx(1), refsem.Idx(-1), refsem.Key("a"), refsem.Key("ab"),
